@@ -13,7 +13,7 @@ use neurons::tensor::{Shape, Tensor};
 pub fn meta(ctx: &Ctx) -> Meta {
     let t = ctx.tier.thorough();
     Meta {
-        rule: format!("builder as a state machine: every layer sequence of <= {} tokens from {{dense,conv,deconv,pool,feedback}} over 5 input shapes with <= {} configuration deviations{}; in every state: announced (input,output) shape of every layer vs the size formulas, a real forward pass on pairwise-distinct data (pre-activation shape = announced, handed-on shape = announced or its flattening, recorded shape = nesting), a real backward pass (gradient shapes = parameter shapes). Flat->spatial: EVERY flat size n in 1..{} in front of each of the three spatial layer kinds must be accepted iff n is a perfect square, and then a 1x1 identity kernel / 1x1 pool must reproduce the vector as 1 x r x r in row-major order. Non-trivial = state with >= 2 layers or a flat size >= 2",
+        rule: format!("builder as a state machine: every layer sequence of <= {} tokens from {{dense,conv,deconv,pool,feedback}} over 5 input shapes with <= {} configuration deviations{}; in every state: announced (input,output) shape of every layer vs the size formulas, a real forward pass on pairwise-distinct data (pre-activation shape = announced, handed-on shape = announced or its flattening, recorded shape = nesting), a real backward pass (gradient shapes = parameter shapes). Flat->spatial: EVERY flat size n in 1..{} in front of each of the three spatial layer kinds (and, for n <= 1024, in front of a feedback block starting with each of them) must be accepted iff n is a perfect square, and then a 1x1 identity kernel / 1x1 pool must reproduce the vector as 1 x r x r in row-major order. Non-trivial = state with >= 2 layers or a flat size >= 2",
             if t { 3 } else { 3 }, if t { 2 } else { 1 }, if t { "; plus sequences of 4 tokens with <= 1 deviation" } else { "" }, if t { 65536 } else { 4096 }),
         bound: "depth <= 3 (4 in thorough at one deviation); kernels <= 3, strides <= 2(3), paddings <= 2, dilations <= 2".into(),
         exhaustive: true,
@@ -203,6 +203,9 @@ pub fn check_flat(n: usize, kind: &str, case: &Kv, rep: &mut Report) {
     let l = match kind {
         "conv" => L::Conv { f: 1, k: (1, 1), s: (1, 1), p: (0, 0), d: (1, 1), act: Act::Linear, drop: None },
         "deconv" => L::Deconv { f: 1, k: (1, 1), s: (1, 1), p: (0, 0), act: Act::Linear, drop: None },
+        "fb-conv" => L::Fb { layers: vec![L::Conv { f: 1, k: (1, 1), s: (1, 1), p: (0, 0), d: (1, 1), act: Act::Linear, drop: None }], loops: 1, inskips: false, outskips: false, acc: Acc::Add },
+        "fb-deconv" => L::Fb { layers: vec![L::Deconv { f: 1, k: (1, 1), s: (1, 1), p: (0, 0), act: Act::Linear, drop: None }], loops: 1, inskips: false, outskips: false, acc: Acc::Add },
+        "fb-pool" => L::Fb { layers: vec![L::Pool { k: (1, 1), s: (1, 1) }], loops: 1, inskips: false, outskips: false, acc: Acc::Add },
         _ => L::Pool { k: (1, 1), s: (1, 1) },
     };
     let mut lib = Network::new(Shape::Single(1));
@@ -225,8 +228,12 @@ pub fn check_flat(n: usize, kind: &str, case: &Kv, rep: &mut Report) {
             let w: Vec<f32> = (0..n).map(|i| (i + 1) as f32).collect();
             let mut lp = neurons::verif::params(&lib);
             lp[0].weights = vec![libnet::matrix(n, 1, &w)];
-            if kind != "pool" {
+            if kind == "conv" || kind == "deconv" {
                 lp[1].weights = vec![tensor(Dims::Chw(1, 1, 1), &[1.0])];
+            } else if kind == "fb-conv" || kind == "fb-deconv" {
+                for q in lp[1].inner.iter_mut() {
+                    q.weights = vec![tensor(Dims::Chw(1, 1, 1), &[1.0])];
+                }
             }
             neurons::verif::set_params(&mut lib, &lp);
             rep.transitions += 2;
@@ -274,6 +281,13 @@ pub fn run(ctx: &Ctx) -> Report {
             for kind in ["conv", "deconv", "pool"] {
                 let case = Kv::new().put("kind", "flat").put("n", n).put("layer", kind);
                 check_flat(*n, kind, &case, &mut r);
+            }
+            // the same in front of a feedback block whose first layer is spatial (sizes up to 1024)
+            if *n <= 1024 {
+                for kind in ["fb-conv", "fb-deconv", "fb-pool"] {
+                    let case = Kv::new().put("kind", "flat").put("n", n).put("layer", kind);
+                    check_flat(*n, kind, &case, &mut r);
+                }
             }
         }
         r
